@@ -305,6 +305,11 @@ def needs_sep(a, b):
     return False
 
 
+# what a comment may contain: anything up to the end of the line - several multi-byte characters (byte length and character
+# count differ by more than one), trailing backslashes, quotes, comment markers, code
+COMMENT_TEXTS = ["", "x", "als stel }", '"', "é", "één Zoë over de coördinaten", "語語語", "🇳🇱🇳🇱 vlag", "ü", "éé", "ééé", "pad C:\\", "é\\", "\\", "\\\\", "a \\\"", '"open', "// nog een", "t = 99;", "x\t\ty", "€€€€€€€€"]
+
+
 def render(tokens, rng=None, ws=0.0, comments=0.0):
     out = []
     prev = None
@@ -317,7 +322,7 @@ def render(tokens, rng=None, ws=0.0, comments=0.0):
             while rng.random() < ws:
                 sep += rng.choice(WS)
             if rng.random() < comments:
-                sep += "// " + rng.choice(["", "x", "als stel }", '"', "é"]) + "\n"
+                sep += rng.choice(["// ", "//", "/// "]) + rng.choice(COMMENT_TEXTS) + "\n"
         if prev == "/" and sep.startswith("/"):
             sep = " " + sep            # a comment directly after `/` would swallow the operator
         out.append(sep)
